@@ -354,3 +354,24 @@ def alloc_dims(t):
     if isinstance(shp, (Tup, Lst)):
         return list(shp.elems)
     return [shp]
+
+
+def skipping_guards(b, node, relative_to=None):
+    """Branch conditions under which `node` is *skipped while execution continues* (relative to another node): the guards of
+    `node` whose other arm does not end in a raise.  `assert c` and `if not c: raise ...` do not count: there the statement
+    is never silently skipped."""
+    cfg = b.cfg
+    gs = cfg.guards(node)
+    if relative_to is not None:
+        base = {(id(o), p) for (_t, p, o) in cfg.guards(relative_to)}
+        gs = [g for g in gs if (id(g[2]), g[1]) not in base]
+    out = []
+    for test, pol, owner in gs:
+        if isinstance(owner, ast.Assert):
+            continue
+        if isinstance(owner, ast.If):
+            other = owner.body if not pol else owner.orelse
+            if other and isinstance(other[-1], ast.Raise):
+                continue
+        out.append((unparse(test, 60), pol, owner))
+    return out
